@@ -16,7 +16,7 @@ ENGINE = 'SimLoop'
 LEVEL_TEXT = ('seeded exploration of generated programs x histories on the real Manager: every run is checked event by event against a '
               'pass model written from the statement; sampling, not proof - evidence states how many distinct programs/logs were explored')
 LEVEL_NOTE = ('trusted: the pass model (30 lines), the observer handler at priority 1e18 as dispatch-begin marker, CPython; '
-              'assumes handlers that neither raise nor suspend and channel "*" everywhere')
+              'assumes handlers that do not suspend and channel "*" everywhere')
 RULE = ('each run = generated program (1-4 components in a tree, handlers with priorities incl. ties/negative/float, scripts that '
         'fire(priority=p) / stop() / flush() re-entrantly) + external fires + flush()/tick() passes, all drawn from one seeded tape; '
         'non-trivial = at least one event was fired from inside a handler while a pass was running and >= 2 distinct priorities were queued; '
@@ -25,8 +25,8 @@ STATE_MEASURE = '(events in pass snapshot, distinct priorities in snapshot, nest
 REAL = ['circuits.core.manager.Manager (fire/_fire/flush/tick/_dispatcher/_EventQueue)', 'circuits.core.components.BaseComponent',
         'circuits.core.handlers.handler', 'circuits.core.events.Event']
 STUBBED = ['handler tie-break order and task order (decided by the tape through Manager.getHandlers / _tasks seams)']
-ASSUMPTIONS = ['all components and events use channel "*" (matching is C01\'s subject)', 'handlers do not raise and are not generators']
-PROBES = ['fired-in-handler', 'nested-flush', 'nested-flush-new-pass', 'stop', 'mixed-priority-pass', 'tie-priority-handlers']
+ASSUMPTIONS = ['all components and events use channel "*" (matching is C01\'s subject)', 'handlers are not generators; a handler may raise (after firing/stopping): the order and stop() clauses hold regardless']
+PROBES = ['fired-in-handler', 'nested-flush', 'nested-flush-new-pass', 'stop', 'mixed-priority-pass', 'tie-priority-handlers', 'fault:handler-raise', 'stop-then-raise']
 TIERS = {
     'quick': dict(runs=24000, wall=35, chunk=250, cfg=dict(max_events=40, max_ops=12)),
     'thorough': dict(runs=600000, wall=600, chunk=500, cfg=dict(max_events=120, max_ops=30)),
@@ -77,7 +77,7 @@ def run_one(ctx):
     world.reset(ctx)
     cfg = ctx.cfg
     model = PassModel()
-    st = dict(next_eid=0, budget=ch.randint(4, cfg['max_events'], 'event-budget'), inv=0, depth=0, flush_depth=0)
+    st = dict(next_eid=0, budget=ch.randint(4, cfg['max_events'], 'event-budget'), inv=0, depth=0, flush_depth=0, xmap={})
     handled = {}   # eid -> list of (hid, prio, stopped_here)
     dispatched = []
     meta = {}      # eid -> dict(name, prio)
@@ -152,19 +152,35 @@ def run_one(ctx):
             ctx.trace('  ' * st['depth'] + 'handler h%d(prio %r) <- e%d' % (hid, prio, eid))
             rec = [hid, prio, False]
             handled.setdefault(eid, []).append(rec)
-            for act in script:
-                if act[0] == 'fire':
-                    if st['flush_depth'] > 0:
-                        ctx.stat('fired-in-handler')
-                        st['fih'] = True
-                    do_fire(self, act[1], act[2], 'h%d' % hid)
-                elif act[0] == 'stop':
-                    event.stop()
-                    rec[2] = True
-                    ctx.stat('stop')
-                elif act[0] == 'flush':
-                    do_flush(self, 'flush', 'h%d' % hid)
-            st['depth'] -= 1
+            try:
+                for act in script:
+                    if act[0] == 'fire':
+                        if st['flush_depth'] > 0:
+                            ctx.stat('fired-in-handler')
+                            st['fih'] = True
+                        do_fire(self, act[1], act[2], 'h%d' % hid)
+                    elif act[0] == 'stop':
+                        event.stop()
+                        rec[2] = True
+                        ctx.stat('stop')
+                    elif act[0] == 'flush':
+                        do_flush(self, 'flush', 'h%d' % hid)
+                    elif act[0] == 'raise':
+                        # the handler fails after what it did so far (a stop() it made still holds)
+                        ctx.stat('fault:handler-raise')
+                        if rec[2]:
+                            ctx.stat('stop-then-raise')
+                        ctx.trace('  ' * st['depth'] + '  h%d raises' % hid)
+                        # the dispatcher fires an `exception` event (priority 0) right after the raise: it takes part in the passes
+                        st['next_eid'] += 1
+                        xid = st['next_eid']
+                        st['xmap'][(eid, hid)] = xid
+                        meta[xid] = dict(name='exception', prio=0, origin='h%d' % hid)
+                        ctx.log('F', xid, 'exception', 0, 'h%d' % hid)
+                        model.fire(xid, 0)
+                        raise RuntimeError('sim: handler h%d fails' % hid)
+            finally:
+                st['depth'] -= 1
         h.__name__ = 'h%d' % hid
         for n in names:
             all_handlers.setdefault(n, []).append((hid, prio))
@@ -173,19 +189,25 @@ def run_one(ctx):
     def gen_script():
         script = []
         for _ in range(ch.weighted([3, 4, 2, 1], 'script-len')):
-            k = ch.weighted([6, 1, 1], 'act')
+            k = ch.weighted([12, 2, 2, 1], 'act')
             if k == 0:
                 script.append(('fire', ch.choice(NAMES, 'fire-name'), ch.choice(PRIOS, 'fire-prio')))
             elif k == 1:
                 script.append(('stop',))
-            else:
+            elif k == 2:
                 script.append(('flush',))
+            else:
+                script.append(('raise',))
+                break
         return script
 
     class Obs(BaseComponent):
         @handler(priority=1e18, channel='*')
         def _sim_obs(self, event, *args, **kwargs):
             eid = getattr(event, 'sim_id', None)
+            if eid is None and event.name == 'exception':
+                fe, fh = kwargs.get('fevent'), kwargs.get('handler')
+                eid = st['xmap'].get((getattr(fe, 'sim_id', None), int(fh.__name__[1:]) if fh is not None and fh.__name__[1:].isdigit() else None))
             if eid is None:
                 return
             exp = model.expect_next()
